@@ -899,4 +899,422 @@ Proof.
   intros c. destruct (HG _ _ Hn) as (_ & _ & -> & _). reflexivity.
 Qed.
 
+(* ================================================================================================ *)
+(* Part 7: (B) parsing printed text                                                                  *)
+(* ================================================================================================ *)
+Lemma Rep0_det (t : arena) : forall r1 r2 p d, Rep0 t p d r1 -> Rep0 t p d r2 -> rid r1 = rid r2 -> r1 = r2.
+Proof.
+  induction r1 as [i cs IH] using rtree_ind'. intros [j cs2] p d HR1 HR2 E.
+  simpl in E. subst j.
+  inversion HR1 as [p1 d1 i1 n1 cs1 Hn1 Hp1 Hd1 Hc1 HF1]; subst.
+  inversion HR2 as [p2 d2 i2 n2 cs2' Hn2 Hp2 Hd2 Hc2 HF2]; subst.
+  rewrite Hn1 in Hn2. inversion Hn2; subst n2. clear Hn2.
+  assert (Hm : map rid cs = map rid cs2) by congruence.
+  f_equal. clear HR1 HR2 Hc1 Hc2 Hp2 Hd2 Hn1.
+  revert HF1 HF2. generalize (S (ndepth n1)). intros d'. intros F1 F2. revert cs2 Hm F1 F2.
+  induction IH as [|c cs Hc _ IHcs]; intros [|c2 cs2] Hm F1 F2; simpl in Hm; try discriminate; auto.
+  inversion Hm. inversion F1; subst. inversion F2; subst. f_equal.
+  - eapply Hc; eauto.
+  - apply IHcs; auto.
+Qed.
+
+Theorem parse_print r : labels_ok r ->
+  exists t' : arena,
+    from_newick parse_len (lprint r ++ [ch_semi]) = Ok t' /\
+    SRep t' None 0 (skel 0 r) r /\
+    LRep t' None 0 0 r /\
+    Rep t' None 0 0 (skel 0 r) /\
+    ids (skel 0 r) = seq 0 (length t') /\
+    WF t'.
+Proof.
+  intros Hok. destruct (finish_ok (build r) (build_good r)) as [t' Hf].
+  exists t'. assert (Hp : from_newick parse_len (lprint r ++ [ch_semi]) = Ok t').
+  { rewrite parse_print_eq, Hf by auto. reflexivity. }
+  destruct (finish_spec (build_good r) Hf) as [Hlen HI].
+  assert (HS : SRep t' None 0 (skel 0 r) r).
+  { eapply SRep_transfer; [|apply SRep_build]. intros i n Hn.
+    destruct (HI _ _ Hn) as [n' [Hn' [Hs _]]]. eauto. }
+  pose proof (parse_tree parse_len _ Hp) as HPT.
+  destruct HPT as (Hne & Hall & r0 & HR & Hids).
+  assert (E : r0 = skel 0 r).
+  { eapply Rep0_det; [eapply Rep_Rep0; eauto|eapply SRep_Rep0; eauto|].
+    rewrite rid_skel. destruct (ids_seq_root _ _ Hids); auto. }
+  subst r0.
+  split; auto. split; auto. split.
+  { pose proof (SRep_LRep _ _ _ _ _ HS) as H. rewrite rid_skel in H. exact H. }
+  split; auto. split; auto.
+  apply ParsedTree_WF. split; auto. split; auto. eauto.
+Qed.
+
+(* ================================================================================================ *)
+(* Part 8: (A) the writer                                                                            *)
+(* ================================================================================================ *)
+Definition rlabel (nm : option str) (ln : option L) (cm : option str) : rstr :=
+  (match nm with Some s => lit s | None => [] end) ++
+  (match ln with Some l => [C ch_colon; Lv l] | None => [] end) ++
+  (match cm with Some s => [C ch_lbr] ++ lit s ++ [C ch_rbr] | None => [] end).
+
+Fixpoint rprint (r : ltree) : rstr :=
+  match r with
+  | LT nm ln cm cs =>
+      match cs with
+      | [] => rlabel nm ln cm
+      | _ => [C ch_lpar] ++ join_comma (map rprint cs) ++ [C ch_rpar] ++ rlabel nm ln cm
+      end
+  end.
+
+Definition flatten (s : rstr) : str :=
+  flat_map (fun x => match x with C c => [c] | Lv l => print_len l end) s.
+
+Lemma flatten_app a b : flatten (a ++ b) = flatten a ++ flatten b.
+Proof. apply flat_map_app. Qed.
+Lemma flatten_lit s : flatten (lit s) = s.
+Proof. unfold flatten, lit. induction s; simpl; auto. f_equal; auto. Qed.
+Lemma flatten_join l : flatten (join_comma l) = join_c (map flatten l).
+Proof.
+  induction l as [|x l IH]; [reflexivity|]. destruct l as [|y l]; [reflexivity|].
+  change (join_comma (x :: y :: l)) with (x ++ [C ch_comma] ++ join_comma (y :: l)).
+  rewrite !flatten_app, IH. reflexivity.
+Qed.
+Lemma flatten_rlabel nm ln cm : flatten (rlabel nm ln cm) = label nm ln cm.
+Proof.
+  unfold rlabel, label. rewrite !flatten_app. f_equal; [|f_equal].
+  - destruct nm; simpl; auto using flatten_lit.
+  - destruct ln; simpl; auto. rewrite app_nil_r. reflexivity.
+  - destruct cm; simpl; auto. rewrite flatten_app, flatten_lit. reflexivity.
+Qed.
+
+Lemma flatten_rprint : forall r, flatten (rprint r) = lprint r.
+Proof.
+  induction r as [nm ln cm cs IH] using ltree_ind'.
+  destruct cs as [|c cs']; [apply flatten_rlabel|].
+  remember (c :: cs') as cs eqn:Ecs.
+  replace (rprint (LT nm ln cm cs))
+    with ([C ch_lpar] ++ join_comma (map rprint cs) ++ [C ch_rpar] ++ rlabel nm ln cm) by (subst; reflexivity).
+  replace (lprint (LT nm ln cm cs))
+    with ((ch_lpar :: join_c (map lprint cs) ++ [ch_rpar]) ++ label nm ln cm) by (subst; reflexivity).
+  rewrite !flatten_app, flatten_join, flatten_rlabel, map_map.
+  rewrite (map_ext_Forall _ _ IH). simpl. rewrite <- app_assoc. reflexivity.
+Qed.
+
+Definition lhmax (cs : list ltree) : nat := fold_right (fun c acc => Nat.max (lheight c) acc) 0 cs.
+Lemma lheight_eq nm ln cm cs : lheight (LT nm ln cm cs) = S (lhmax cs).
+Proof. reflexivity. Qed.
+Lemma lhmax_in c cs : In c cs -> lheight c <= lhmax cs.
+Proof. induction cs; simpl; intros H; [contradiction|]. destruct H as [->|H]; [lia|]. specialize (IHcs H). lia. Qed.
+
+Lemma mapM_ok {A B C} (g : A -> outcome B) (f : C -> B) l cs :
+  Forall2 (fun a c => g a = Ok (f c)) l cs -> mapM g l = Ok (map f cs).
+Proof. induction 1; simpl; auto. rewrite H, IHForall2. reflexivity. Qed.
+
+Lemma Forall2_Forall_r2 {A B} (R : A -> B -> Prop) (Q : A -> B -> Prop) l l' :
+  Forall2 R l l' -> Forall (fun b => forall a, R a b -> Q a b) l' -> Forall2 Q l l'.
+Proof. induction 1; intros HF; inversion HF; subst; constructor; auto. Qed.
+
+Lemma write_sub : forall r (t : arena) p d i, LRep t p d i r ->
+  forall fuel, lheight r <= fuel -> to_newick_impl_f fuel t i AllFields = Ok (rprint r).
+Proof.
+  induction r as [nm ln cm cs IH] using ltree_ind'. intros t p d i HR fuel Hfuel.
+  inversion HR; subst. rewrite lheight_eq in Hfuel.
+  destruct fuel as [|fuel]; [lia|]. cbn [to_newick_impl_f].
+  unfold get. match goal with A : nth_error t _ = Some _, B : ndeleted _ = false |- _ => rewrite A, B end.
+  cbn [bind].
+  assert (Hlab : node_to_newick AllFields n = rlabel (nname n) (npedge n) (ncomment n)) by reflexivity.
+  rewrite Hlab.
+  match goal with A : Forall2 _ (nchildren n) cs |- _ => rename A into HF end.
+  destruct (nchildren n) as [|a l] eqn:Ech.
+  - inversion HF; subst. reflexivity.
+  - destruct cs as [|c cs']; [inversion HF|].
+    remember (c :: cs') as cs eqn:Ecs. remember (a :: l) as chl eqn:Echl.
+    erewrite mapM_ok with (f := rprint) (cs := cs).
+    + cbn [bind]. subst cs. reflexivity.
+    + eapply Forall2_Forall_r2; [exact HF|].
+      apply Forall_forall. intros c0 Hc0 a0 Ha0.
+      rewrite Forall_forall in IH. rewrite (IH c0 Hc0 _ _ _ _ Ha0); auto.
+      pose proof (lhmax_in _ _ Hc0). lia.
+Qed.
+
+(* height bound from the cached depths: the nodes on a root path have pairwise different depths *)
+Lemma LRep_height : forall r (t : arena) p d i (S0 : list nat), LRep t p d i r ->
+  NoDup S0 -> (forall x, In x S0 -> exists n, nth_error t x = Some n /\ ndepth n < d) ->
+  length S0 + lheight r <= length t.
+Proof.
+  induction r as [nm ln cm cs IH] using ltree_ind'. intros t p d i S0 HR Hnd HS.
+  inversion HR; subst. rewrite lheight_eq.
+  match goal with A : nth_error t _ = Some _ |- _ => rename A into Hn end.
+  assert (Hnotin : ~ In (nid n) S0).
+  { intros Hin. destruct (HS _ Hin) as [n' [Hn' Hlt]]. rewrite Hn in Hn'. inversion Hn'; subst. lia. }
+  assert (Hnd' : NoDup (nid n :: S0)) by (constructor; auto).
+  assert (HS' : forall x, In x (nid n :: S0) -> exists n', nth_error t x = Some n' /\ ndepth n' < S (ndepth n)).
+  { intros x [<-|Hx]; [eauto|]. destruct (HS _ Hx) as [n' [A B]]. eauto. }
+  assert (Hbase : length (nid n :: S0) <= length t).
+  { rewrite <- (seq_length (length t) 0). apply NoDup_incl_length; auto.
+    intros x Hx. destruct (HS' _ Hx) as [n' [A _]]. apply in_seq. pose proof (nth_Some_lt A). lia. }
+  assert (Hall : Forall (fun c => length (nid n :: S0) + lheight c <= length t) cs).
+  { match goal with A : Forall2 _ (nchildren n) cs |- _ => rename A into HF end.
+    clear - IH HF Hnd' HS'. induction HF; inversion IH; subst; constructor; eauto. }
+  simpl length in *. clear - Hbase Hall.
+  induction Hall; simpl; [lia|]. unfold lhmax in *. lia.
+Qed.
+
+Lemma flatten_semi r : flatten (rprint r ++ [C ch_semi]) = lprint r ++ [ch_semi].
+Proof. rewrite flatten_app, flatten_rprint. reflexivity. Qed.
+
+Theorem write_correct (t : arena) root d r :
+  LRep t None d root r -> get_root t = Ok root ->
+  to_newick t = Ok (rprint r ++ [C ch_semi]).
+Proof.
+  intros HR Hroot. unfold to_newick, to_formatted_newick. rewrite Hroot. cbn [bind].
+  rewrite (write_sub r t None d root HR).
+  - reflexivity.
+  - pose proof (LRep_height r t None d root [] HR (NoDup_nil _)) as H.
+    simpl in H. unfold fuel_of. specialize (H ltac:(intros x [])). lia.
+Qed.
+
+Corollary write_flatten (t : arena) root d r :
+  LRep t None d root r -> get_root t = Ok root ->
+  exists txt, to_newick t = Ok txt /\ flatten txt = lprint r ++ [ch_semi].
+Proof. intros HR Hroot. eexists. split; [eapply write_correct; eauto|apply flatten_semi]. Qed.
+
+Lemma get_root_0 (t : arena) d r : LRep t None d 0 r -> get_root t = Ok 0.
+Proof.
+  intros HR. inversion HR; subst. destruct t as [|n0 t]; [discriminate|].
+  match goal with A : nth_error _ 0 = Some _ |- _ => simpl in A; inversion A; subst end.
+  unfold get_root. simpl.
+  match goal with A : ndeleted n = false, B : nparent n = None |- _ => unfold is_root; rewrite A, B end.
+  simpl. congruence.
+Qed.
+
+(* ================================================================================================ *)
+(* Part 9: (C) the round trip                                                                        *)
+(* ================================================================================================ *)
+Theorem round_trip (t : arena) root d r txt :
+  LRep t None d root r -> get_root t = Ok root -> labels_ok r ->
+  to_newick t = Ok txt ->
+  exists t' : arena,
+    from_newick parse_len (flatten txt) = Ok t' /\
+    LRep t' None 0 0 r /\
+    Rep t' None 0 0 (skel 0 r) /\ ids (skel 0 r) = seq 0 (length t') /\ WF t' /\
+    to_newick t' = Ok txt.
+Proof.
+  intros HR Hroot Hok Hw. rewrite (write_correct t root d r HR Hroot) in Hw.
+  inversion Hw; subst txt; clear Hw. rewrite flatten_semi.
+  destruct (parse_print r Hok) as [t' (Hp & HS & HL & HRep & Hids & HWF)].
+  exists t'. repeat (split; auto).
+  apply (write_correct t' 0 0 r HL). eapply get_root_0; eauto.
+Qed.
+
+(* ================================================================================================ *)
+(* Part 10: links with the bridge of Spec.v (Rep / WF)                                               *)
+(* ================================================================================================ *)
+
+(* an arena represents at most one labelled tree *)
+Lemma LRep_det (t : arena) : forall r1 r2 p d i, LRep t p d i r1 -> LRep t p d i r2 -> r1 = r2.
+Proof.
+  induction r1 as [nm ln cm cs IH] using ltree_ind'. intros r2 p d i HR1 HR2.
+  inversion HR1 as [p1 d1 i1 n1 nm1 ln1 cm1 cs1 Hn1 ? ? ? ? ? ? ? HF1]; subst.
+  inversion HR2 as [p2 d2 i2 n2 nm2 ln2 cm2 cs2 Hn2 ? ? ? ? ? ? ? HF2]; subst.
+  rewrite Hn1 in Hn2. inversion Hn2; subst n2. f_equal.
+  clear HR1 HR2 Hn1 Hn2.
+  revert cs2 HF2. induction HF1 as [|a c l cs Hac _ IHF]; intros cs2 HF2; inversion HF2; subst; auto.
+  inversion IH; subst. f_equal; eauto.
+Qed.
+
+(* the labels that an arena attaches to a rose tree of ids *)
+Fixpoint decorate (t : arena) (sk : rtree) : ltree :=
+  match sk with
+  | RT i cs =>
+      match nth_error t i with
+      | Some n => LT (nname n) (npedge n) (ncomment n) (map (decorate t) cs)
+      | None => LT None None None (map (decorate t) cs)
+      end
+  end.
+
+Lemma Forall2_map_r {A B C} (R : A -> C -> Prop) (f : B -> C) l l' :
+  Forall2 (fun a b => R a (f b)) l l' -> Forall2 R l (map f l').
+Proof. induction 1; simpl; constructor; auto. Qed.
+
+Lemma Rep_LRep (t : arena) : forall sk p d i, Rep t p d i sk -> LRep t p d i (decorate t sk).
+Proof.
+  induction sk as [j cs IH] using rtree_ind'. intros p d i HR.
+  inversion HR as [p1 d1 i1 n cs1 Hn Hd Hid Hp Hdp HF He1 He2]; subst.
+  simpl. rewrite Hn. econstructor; eauto.
+  apply Forall2_map_r. eapply Forall2_Forall_r2; [exact HF|].
+  eapply Forall_impl; [|exact IH]. intros c Hc a Ha. apply Hc; auto.
+Qed.
+
+Lemma Rep_parent_cases (t : arena) : forall r p d i, Rep t p d i r ->
+  forall j n, In j (ids r) -> nth_error t j = Some n -> (j = i /\ nparent n = p) \/ exists q, nparent n = Some q.
+Proof.
+  induction r as [k cs IH] using rtree_ind'. intros p d i HR j n Hj Hnj.
+  inversion HR as [p1 d1 i1 n0 cs1 Hn Hd Hid Hp Hdp HF He1 He2]; subst.
+  destruct Hj as [<-|Hj].
+  - left. rewrite Hn in Hnj. inversion Hnj; subst. auto.
+  - right. apply in_flat_map in Hj. destruct Hj as [c [Hc Hj]].
+    clear He1 He2 Hn HR. induction HF as [|a c0 l cs0 Hac _ IHF]; [contradiction|].
+    inversion IH as [|? ? Hc0 Hcs0]; subst. destruct Hc as [->|Hc].
+    + destruct (Hc0 _ _ _ Hac j n Hj Hnj) as [[_ E]|E]; eauto.
+    + apply IHF; auto.
+Qed.
+
+Lemma get_root_Rep (t : arena) root d r :
+  Rep t None d root r -> (forall i, live t i -> In i (ids r)) -> get_root t = Ok root.
+Proof.
+  intros HR Hlive. pose proof HR as HR'.
+  inversion HR as [p1 d1 i1 n0 cs1 Hn Hd Hid Hp Hdp HF He1 He2]; subst.
+  unfold get_root.
+  set (f := fun n : node => negb (ndeleted n) && is_root n).
+  assert (Hin0 : In n0 (filter f t)).
+  { apply filter_In. split; [eapply nth_error_In; eauto|]. unfold f, is_root. rewrite Hd, Hp. reflexivity. }
+  destruct (filter f t) as [|m rest] eqn:EF; [contradiction|].
+  assert (Hm : In m (filter f t)) by (rewrite EF; left; auto).
+  apply filter_In in Hm. destruct Hm as [Hmt Hfm].
+  apply In_nth_error in Hmt. destruct Hmt as [j Hj].
+  unfold f in Hfm. apply andb_true_iff in Hfm. destruct Hfm as [Hdel Hroot].
+  apply negb_true_iff in Hdel.
+  assert (Hjin : In j (ids (RT (nid n0) cs1))) by (apply Hlive; exists m; auto).
+  destruct (Rep_parent_cases t _ _ _ _ HR' j m Hjin Hj) as [[E _]|[q E]].
+  - subst j. rewrite Hn in Hj. inversion Hj; subst. reflexivity.
+  - unfold is_root in Hroot. rewrite E in Hroot. discriminate.
+Qed.
+
+(* the round trip for any well-formed arena: the labels are read off the arena *)
+Theorem round_trip_WF (t : arena) root sk txt :
+  Rep t None 0 root sk -> (forall i, live t i -> In i (ids sk)) ->
+  labels_ok (decorate t sk) ->
+  to_newick t = Ok txt ->
+  exists t' : arena,
+    from_newick parse_len (flatten txt) = Ok t' /\
+    LRep t' None 0 0 (decorate t sk) /\
+    Rep t' None 0 0 (skel 0 (decorate t sk)) /\
+    ids (skel 0 (decorate t sk)) = seq 0 (length t') /\ WF t' /\
+    to_newick t' = Ok txt.
+Proof.
+  intros HR Hlive Hok Hw.
+  eapply round_trip; eauto using Rep_LRep, get_root_Rep.
+Qed.
+
+(* ---- the plain case: names without metacharacters --------------------------------------------------- *)
+Definition name_plain (nm : option str) : Prop :=
+  match nm with None => True | Some s => s <> [] /\ Forall safe_char s end.
+Inductive labels_plain : ltree -> Prop :=
+| labels_plain_node nm ln cm cs :
+    name_plain nm -> len_ok ln -> comment_ok cm -> Forall labels_plain cs -> labels_plain (LT nm ln cm cs).
+
+Lemma labels_plain_ok : forall r, labels_plain r -> labels_ok r.
+Proof.
+  induction r as [nm ln cm cs IH] using ltree_ind'. intros H.
+  inversion H as [? ? ? ? Hnm Hln Hcm Hcs]; subst. constructor; auto.
+  - destruct nm as [x|]; simpl in *; auto. destruct Hnm. split; auto. apply name_okb_safe; auto.
+  - rewrite Forall_forall in *. auto.
+Qed.
+
 End RoundTrip.
+
+Arguments LT {L} name len comment ch.
+Arguments lprint {L} print_len r.
+Arguments rprint {L} r.
+Arguments flatten {L} print_len s.
+Arguments labels_ok {L} ok_len _.
+Arguments labels_plain {L} ok_len _.
+Arguments LRep {L} t _ _ _ _.
+Arguments SRep {L} t _ _ _ _.
+Arguments skel {L} k r.
+Arguments decorate {L} t sk.
+Arguments lsize {L} r.
+
+(* ================================================================================================ *)
+(* Part 11: the hypotheses are satisfiable; concrete instances                                       *)
+(* ================================================================================================ *)
+Module Example.
+
+Definition pl (b : bool) : str := if b then [49%N] else [48%N].       (* "1" / "0" *)
+Definition ps (s : str) : option bool :=
+  if str_eqb s [49%N] then Some true else if str_eqb s [48%N] then Some false else None.
+Definition okl (_ : bool) : Prop := True.
+
+Lemma ex_H1 : forall l, okl l -> ps (pl l) = Some l.
+Proof. intros [|] _; reflexivity. Qed.
+Lemma ex_H2 : forall l, pl l <> [] /\ Forall safe_char (pl l).
+Proof. intros [|]; (split; [discriminate|repeat constructor]). Qed.
+
+(* (A:1,:0)R[c];  in an arena whose slot 0 is a tombstone and whose root is slot 2 *)
+Definition r_ex : ltree bool :=
+  LT (Some [82%N]) None (Some [99%N])
+     [LT (Some [65%N]) (Some true) None []; LT None (Some false) None []].
+Definition t_ex : @arena bool :=
+  [ tombstone;
+    mkNode 1 (Some [65%N]) (Some 2) [] (Some true) None [] 1 false;
+    mkNode 2 (Some [82%N]) None [1; 3] None (Some [99%N]) [(1, true); (3, false)] 0 false;
+    mkNode 3 None (Some 2) [] (Some false) None [] 1 false ].
+
+Lemma ex_labels : labels_ok okl r_ex.
+Proof.
+  repeat constructor; simpl; try discriminate; try (intros [E|[]]; discriminate).
+Qed.
+Lemma ex_LRep : LRep t_ex None 0 2 r_ex.
+Proof.
+  eapply LRep_node with (n := mkNode 2 (Some [82%N]) None [1; 3] None (Some [99%N]) [(1, true); (3, false)] 0 false);
+    try reflexivity.
+  constructor; [|constructor; [|constructor]].
+  - eapply LRep_node with (n := mkNode 1 (Some [65%N]) (Some 2) [] (Some true) None [] 1 false);
+      try reflexivity. constructor.
+  - eapply LRep_node with (n := mkNode 3 None (Some 2) [] (Some false) None [] 1 false);
+      try reflexivity. constructor.
+Qed.
+Lemma ex_root : get_root t_ex = Ok 2.
+Proof. reflexivity. Qed.
+Lemma ex_text : to_newick t_ex = Ok (rprint r_ex ++ [C ch_semi]).
+Proof. reflexivity. Qed.
+
+(* the round trip theorem applies *)
+Example ex_round_trip :
+  exists t' : @arena bool,
+    from_newick ps [40;65;58;49;44;58;48;41;82;91;99;93;59]%N = Ok t' /\
+    LRep t' None 0 0 r_ex /\ Rep t' None 0 0 (skel 0 r_ex) /\ ids (skel 0 r_ex) = seq 0 (length t') /\
+    WF t' /\ to_newick t' = Ok (rprint r_ex ++ [C ch_semi]).
+Proof.
+  exact (round_trip bool pl ps okl ex_H1 ex_H2 t_ex 2 0 r_ex _ ex_LRep ex_root ex_labels ex_text).
+Qed.
+
+(* and the parser model indeed computes that arena (lengths mirrored by the finishing pass) *)
+Example ex_computed :
+  from_newick ps [40;65;58;49;44;58;48;41;82;91;99;93;59]%N =
+  Ok [ mkNode 0 (Some [82%N]) None [1; 2] None (Some [99%N]) [(1, true); (2, false)] 0 false;
+       mkNode 1 (Some [65%N]) (Some 0) [] (Some true) None [] 1 false;
+       mkNode 2 None (Some 0) [] (Some false) None [] 1 false ].
+Proof. vm_compute. reflexivity. Qed.
+
+(* a nested tree with a unary node, unnamed nodes, a root length and a verbatim quoted label
+   containing metacharacters:  (("a(,) b":1)[x y],B)R:0;  *)
+Definition r_ex2 : ltree bool :=
+  LT (Some [82%N]) (Some false) None
+     [ LT None None (Some [120;32;121]%N)
+          [ LT (Some [34;97;40;44;41;32;98;34]%N) (Some true) None [] ];
+       LT (Some [66%N]) None None [] ].
+Lemma ex_labels2 : labels_ok okl r_ex2.
+Proof.
+  repeat constructor; simpl; try discriminate;
+    try (intros H; repeat (destruct H as [H|H]; [discriminate|]); exact H).
+Qed.
+Example ex_parse2 :
+  exists t' : @arena bool,
+    from_newick ps (lprint pl r_ex2 ++ [ch_semi]) = Ok t' /\
+    LRep t' None 0 0 r_ex2 /\ length t' = 4.
+Proof.
+  destruct (parse_print bool pl ps okl ex_H1 ex_H2 r_ex2 ex_labels2) as [t' (A & _ & B & _ & C & _)].
+  exists t'. split; auto. split; auto.
+  apply (f_equal (@length nat)) in C. rewrite seq_length in C. rewrite <- C. reflexivity.
+Qed.
+
+End Example.
+
+Print Assumptions parse_print_eq.
+Print Assumptions parse_print.
+Print Assumptions write_correct.
+Print Assumptions write_flatten.
+Print Assumptions round_trip.
+Print Assumptions round_trip_WF.
+Print Assumptions labels_plain_ok.
+Print Assumptions Example.ex_round_trip.
+Print Assumptions Example.ex_parse2.
